@@ -8,6 +8,7 @@ mod db;
 mod driver;
 mod oracle;
 mod parties;
+mod signer;
 mod world;
 
 use serde_json::{Value, json};
@@ -59,7 +60,7 @@ pub fn execute_with(sc: &Scenario, replay: Option<&[Event]>, keep_log: bool, opt
     let mut log: Vec<String> = vec![];
     let mut fp = Fingerprint::new();
     let mut digest = Fingerprint::new();
-    if let Err(e) = w.agg.start() {
+    if let Err(e) = w.start_aggregator() {
         oracle.found.push(oracle::Found { clause: "harness".into(), detail: format!("aggregator does not start: {e:#}"), step: 0 });
     }
     let mut step_one = |w: &mut World, oracle: &mut Oracle, ev: Event, trace: &mut Vec<Event>, log: &mut Vec<String>| -> bool {
@@ -83,6 +84,11 @@ pub fn execute_with(sc: &Scenario, replay: Option<&[Event]>, keep_log: bool, opt
     };
     match replay {
         Some(events) => {
+            if sc.property == "C20"
+                && let Err(e) = w.spawn_signer_nodes()
+            {
+                oracle.found.push(oracle::Found { clause: "harness".into(), detail: format!("signer node does not start: {e:#}"), step: 0 });
+            }
             for ev in events {
                 if !step_one(&mut w, &mut oracle, ev.clone(), &mut trace, &mut log) {
                     break;
@@ -92,7 +98,15 @@ pub fn execute_with(sc: &Scenario, replay: Option<&[Event]>, keep_log: bool, opt
         None => {
             let mut driver = Driver::new(sc);
             let mut ok = true;
-            for ev in driver.bootstrap(sc) {
+            let script = if sc.property == "C20" {
+                if let Err(e) = w.spawn_signer_nodes() {
+                    oracle.found.push(oracle::Found { clause: "harness".into(), detail: format!("signer node does not start: {e:#}"), step: 0 });
+                }
+                driver.bootstrap_c20(sc)
+            } else {
+                driver.bootstrap(sc)
+            };
+            for ev in script {
                 if !step_one(&mut w, &mut oracle, ev, &mut trace, &mut log) {
                     ok = false;
                     break;
@@ -118,10 +132,19 @@ pub fn execute_with(sc: &Scenario, replay: Option<&[Event]>, keep_log: bool, opt
         }
     }
     if opts.quiesce && oracle.found.is_empty() {
-        let mut q = driver::Quiescer::new(sc);
-        while let Some(ev) = q.next(&w) {
-            if !step_one(&mut w, &mut oracle, ev, &mut trace, &mut log) {
-                break;
+        if sc.property == "C20" {
+            let mut q = driver::QuiescerC20::new();
+            while let Some(ev) = q.next(&w) {
+                if !step_one(&mut w, &mut oracle, ev, &mut trace, &mut log) {
+                    break;
+                }
+            }
+        } else {
+            let mut q = driver::Quiescer::new(sc);
+            while let Some(ev) = q.next(&w) {
+                if !step_one(&mut w, &mut oracle, ev, &mut trace, &mut log) {
+                    break;
+                }
             }
         }
     }
@@ -431,7 +454,11 @@ impl Engine for NetEngine {
             return run_c15(ctx);
         }
         let sc = driver::generate_scenario(&ctx.property, ctx.seed, ctx.run, ctx.tier == Tier::Thorough);
-        let out = execute(&sc, None, false);
+        let out = if ctx.property == "C20" {
+            execute_with(&sc, None, false, &ExecOptions { quiesce: true, ..Default::default() })
+        } else {
+            execute(&sc, None, false)
+        };
         let mut out = out;
         // C06 (ii): paired run — the same history with the registrations of every epoch arriving
         // in the opposite order must give bit-identical aggregate keys for every epoch
@@ -522,7 +549,7 @@ impl Engine for NetEngine {
                 report.replay = Some(json!({"scenario": sc, "trace": out.trace, "paired": true}));
                 return report;
             }
-            let prefix_len = 2 + 2 * (2 * sc.n_parties) + 4 + 1 + 4;
+            let prefix_len = if sc.property == "C20" { 10 * sc.n_parties + 11 } else { 2 + 2 * (2 * sc.n_parties) + 4 + 1 + 4 };
             let prefix_len = prefix_len.min(out.trace.len());
             let (prefix, rest) = out.trace.split_at(prefix_len);
             let prefix = prefix.to_vec();
